@@ -195,12 +195,13 @@ func statusOracle(run *Run) (string, string) {
 }
 
 func checkC02(e *core.Env) {
+	curEnv = e
 	e.SetRule("seeded scripts whose handler returns one of: 20 codes x hostile messages x 0..4 details, plain errors, io.EOF, context errors, at a chosen point (before / between / after responses, after SetTrailer), on in-process and both HTTP carriers; plus undecodable / unencodable responses and the GC-pressure schedule; oracle: status.Convert(client error) == expected(handler error) as the standard transport maps it; distinct = (carrier, kind, return class, message class, cut position)")
 	e.Assume("status messages are compared modulo U+FFFD sanitising; scripts on which the standard transport itself fails the oracle are calibrated out")
 	cs := stdCarriers()
 	defer cs.Close()
 
-	n := e.N(1200, 9000)
+	n := e.N(1200, 20000)
 	e.Cases("status", n, func(i int, r *rand.Rand) {
 		kind := Kind(i % 4)
 		for ci, c := range cs.list {
@@ -313,6 +314,26 @@ func checkC02(e *core.Env) {
 		}
 	})
 
+	// an error whose status claims code OK (custom error type): the handler did fail, so no transport may report success.
+	// (Not calibrated: the standard transport passes the OK code through.)
+	e.Cases("ok-coded-error", e.N(40, 400), func(i int, r *rand.Rand) {
+		kind := Kind(i % 4)
+		for _, c := range cs.list {
+			sc := genStatusScript(r, kind, c.HTTP)
+			sc.Ret = Ret{How: "okcoded", Msg: "failed but claims OK"}
+			run, ok, _ := execScript(c, sc, nil)
+			if !ok {
+				e.Inconclusive("C02 ok-coded %s: watchdog", c.Name)
+				continue
+			}
+			e.Eval(fmt.Sprintf("okcoded|%s|%s|%d", c.Name, kind, len(sc.Handler)), true)
+			out := run.ClientOutcome()
+			if herr, ret := run.HandlerReturn(); ret && herr != nil && out.Seen && out.OK {
+				e.Violate(fmt.Sprintf("%s/%s/success-despite-ok-coded-error", c.Name, kindClass(kind)), "handler returned a non-nil error (whose status carries code OK); the client reported success", witness(run))
+			}
+		}
+	})
+
 	// responses cut short (a sample of the C07 cut points, judged for the status the client reports)
 	e.Cases("truncated", e.N(60, 600), func(i int, r *rand.Rand) {
 		nm := r.Intn(4)
@@ -382,6 +403,7 @@ var rawMsgs sync.Map
 // the handler replies only after two GC cycles and a sentinel finalizer have
 // run. The outcome must still be the handler's.
 func checkC02GC(e *core.Env) {
+	curEnv = e
 	svc := &Service{}
 	carriers := []*Carrier{NewHTTPServer(svc, carrierOpt{}), NewInproc(&Service{}, carrierOpt{})}
 	defer func() {
